@@ -314,7 +314,7 @@ impl Prop for P {
     const LEVEL: &'static str = "fault_enumeration";
 
     fn cases(tier: Tier) -> u32 {
-        tier.pick(12000, 120000)
+        tier.pick(36000, 120000)
     }
 
     fn strategy(tier: Tier) -> BoxedStrategy<Case> {
